@@ -13,7 +13,7 @@ IDLE, OPEN, BUSY, CLOSED = 1, 2, 3, 4
 SERIAL_SKELETONS = ['open', 'one', 'two', 'after-timeout', 'chunked', 'timeout-in-write', 'expired-on-arrival',
                     'retry-from-handler', 'request-during-reconnect']
 MUX_SKELETONS = ['open', 'one', 'three', 'timed-out+one', 'queued', 'ping', 'silent-inflight', 'requests-while-opening',
-                 'retry-from-handler']
+                 'retry-from-handler', 'stalled-peer']
 FAULTS = ['error', 'eof', 'refuse', 'silence']
 OPS = [('connect', 0)] + [('send', i) for i in range(4)] + [('recv', i) for i in range(10)]
 
@@ -64,7 +64,7 @@ class C08(BaseCheck):
   REQUIRED_ANCHORS = ANCHORS
   REQUIRED_CLASSES = ('thrift', 'mux', 'fault:connect', 'fault:send', 'fault:recv', 'kind:error', 'kind:eof',
                       'kind:refuse', 'kind:silence', 'reconnect-fault', 'probe', 'ping-silence', 'reply-and-close-same-instant', 'timeout-in-write', 'silent-with-inflight', 'requests-while-opening',
-                      'expired-on-arrival', 'retry-from-handler', 'request-during-reconnect')
+                      'expired-on-arrival', 'retry-from-handler', 'request-during-reconnect', 'stalled-peer')
   ASSUMPTIONS = ('a silence fault (peer stops answering without closing) legitimately leaves the transport '
                  'open; only the probe clause applies then',)
   QUICK_WALL = 180
@@ -342,6 +342,30 @@ class C08(BaseCheck):
       elif sk == 'requests-while-opening':
         # a peer that has gone silent is only found out by the next ping (30-40 s + 5 s grace)
         env.advance(50.0 if fkind == 'silence' else 1.5)
+      elif sk == 'stalled-peer':
+        # the peer stalls completely (reads nothing, answers nothing, connection up): one request is
+        # blocked inside its write, two more wait in the send queue behind it; the keep-alive ping
+        # (queued behind them as well) goes unanswered and must bring the transport down
+        classes.add('stalled-peer')
+        request()
+        env.advance(1.0)
+        plan['ping-drop-after'] = len(srv.pings)
+        stalled_from = env.now
+        srv.sim.send_delay = lambda conn: 100000.0
+        rs = [request(T=600.0, act={'drop': True}) for _ in range(3)]
+        env.advance(40.0 + 5.0 + 1.0)
+        if not net.faults_fired and not open_failed:
+          out.obligations += 2
+          if transport.state != CLOSED or not faults:
+            out.violate('ping:no-shutdown', 'the peer has been stalled for %.0fs (one request blocked in its write, two queued; pings are '
+                        'due every 30-40 s, 5 s grace) but the transport reports state %s (fault signals: %d)' % (
+                          env.now - stalled_from, transport.state, len(faults)), facts0)
+          else:
+            bad = [r['id'] for r in rs if len(r['deliveries']) != 1]
+            if bad:
+              out.violate('request:completions', 'requests %r, in flight or queued on the stalled connection, were not failed '
+                          'exactly once when it was shut down' % (bad,), dict(facts0, n=0))
+        srv.sim.send_delay = None
       elif sk == 'silent-inflight':
         # the peer goes completely silent (connection stays up) while one request is in flight
         # and another has timed out without its discard being acknowledged: the next ping
